@@ -61,3 +61,47 @@ Theorem C11_star_battle_exact : forall n k region st ans,
    <-> rules_star_battle (List.cons (List.cons (Z.of_nat n) (List.cons k nil)) (List.cons region nil)) ans = true).
 Proof. exact star_battle_exact. Qed.
 Print Assumptions C11_star_battle_exact.
+
+(* Tier 1, aquarium (after fix 97459c5), every board shape, every layout of orthogonally connected
+   tanks, all clues: rule specification = one water level across the full width of a tank *)
+From Cspuz Require Import Graph.GraphModel Puzzle.Rules_aquarium Puzzle.Aquarium Puzzle.AquariumProofs.
+Theorem C11_aquarium_exact : forall h w region rows cols st ans,
+  (forall i : Z, connected (board h w) (fun v => (getz region v =? i)%Z)) ->
+  solve_aquarium_model (List.cons (List.cons (Z.of_nat h) (List.cons (Z.of_nat w) nil))
+                          (List.cons region (List.cons rows (List.cons cols nil)))) = Ok st ->
+  ((exists en, model_of no_graph en st /\ reads st en (seq 0 (h * w)) = ans)
+   <-> rules_aquarium (List.cons (List.cons (Z.of_nat h) (List.cons (Z.of_nat w) nil))
+                          (List.cons region (List.cons rows (List.cons cols nil)))) ans = true).
+Proof. exact aquarium_exact. Qed.
+Print Assumptions C11_aquarium_exact.
+
+(* Tier 1, creek, every board shape and all point clues; the connectivity rule is discharged by
+   property C04's theorems about graph.active_vertices_connected (Avc.post_avc on the grid graph).
+   Programs of this module contain no native graph operator, so gsem_avc only fixes the evaluator. *)
+From Cspuz Require Import Graph.Avc Puzzle.Rules_creek Puzzle.Creek Puzzle.CreekProofs.
+Theorem C11_creek_exact : forall h w clue st ans,
+  solve_creek_model (List.cons (List.cons (Z.of_nat h) (List.cons (Z.of_nat w) nil)) (List.cons clue nil)) = Ok st ->
+  ((exists en, model_of gsem_avc en st /\ reads st en (seq 0 (h * w)) = ans)
+   <-> rules_creek (List.cons (List.cons (Z.of_nat h) (List.cons (Z.of_nat w) nil)) (List.cons clue nil)) ans = true).
+Proof. exact creek_exact. Qed.
+Print Assumptions C11_creek_exact.
+
+(* Tier 1, akari, every board shape and every layout of white / black / numbered cells *)
+From Cspuz Require Import Puzzle.Rules_akari Puzzle.Akari Puzzle.AkariProofs.
+Theorem C11_akari_exact : forall h w grid st ans,
+  solve_akari_model (List.cons (List.cons (Z.of_nat h) (List.cons (Z.of_nat w) nil)) (List.cons grid nil)) = Ok st ->
+  ((exists en, model_of no_graph en st /\ reads st en (seq 0 (h * w)) = ans)
+   <-> rules_akari (List.cons (List.cons (Z.of_nat h) (List.cons (Z.of_nat w) nil)) (List.cons grid nil)) ans = true).
+Proof. exact akari_exact. Qed.
+Print Assumptions C11_akari_exact.
+
+(* Tier 1, building (skyscrapers), every n and all clues (for n = 0 the solver raises ValueError) *)
+From Cspuz Require Import Puzzle.Rules_building Puzzle.Building Puzzle.BuildingProofs.
+Theorem C11_building_exact : forall n up dw lf rg st ans,
+  solve_building_model (List.cons (List.cons (Z.of_nat n) nil)
+      (List.cons up (List.cons dw (List.cons lf (List.cons rg nil))))) = Ok st ->
+  ((exists en, model_of no_graph en st /\ reads st en (seq 0 (n * n)) = ans)
+   <-> rules_building (List.cons (List.cons (Z.of_nat n) nil)
+      (List.cons up (List.cons dw (List.cons lf (List.cons rg nil))))) ans = true).
+Proof. exact building_exact. Qed.
+Print Assumptions C11_building_exact.
